@@ -34,7 +34,7 @@ W = D.WARMUP
 LENGTHS_Q = [200, W, W + 1, 300]
 LENGTHS_T = [150, 200, W - 1, W, W + 1, W + 2, 300, 480]
 KINDS_Q = ["random", "spike"]
-KINDS_T = ["random", "spike", "trend", "flat", "real"]
+KINDS_T = ["random", "spike", "trend", "flat", "real", "alternating"]
 
 
 def job(item):
@@ -117,7 +117,7 @@ def plan(ctx, cat):
     rng = random.Random(ctx.seed + 14)
     kinds = ctx.pick(KINDS_Q, KINDS_T)
     lengths = ctx.pick(LENGTHS_Q, LENGTHS_T)
-    nvar = ctx.pick(3, 5)
+    nvar = ctx.pick(3, 9)
     cases = [(k, n, 1 + i) for i, k in enumerate(kinds) for n in lengths]
     return [(e, D.variants(e, rng, nvar, sweep=not ctx.quick), cases) for e in cat if e["sequential"]]
 
@@ -132,10 +132,13 @@ def judge(ctx, traces, parts):
     for i, t in enumerate(traces):
         t["id"] = i + 1
     slim = [{"id": t["id"], "hdr": {k: t["hdr"][k] for k in ("kind", "lag", "n", "window")}, "ev": t["ev"]} for t in traces]
-    verdicts, results = tlc.validate_traces("TraceSeqSingle", "TraceSeqSingle.cfg", slim, ctx.scratch, parts=parts, timeout=1500)
+    verdicts, results = tlc.validate_traces("TraceSeqSingle", "TraceSeqSingle.cfg", slim, ctx.scratch, parts=parts, timeout=2400,
+                                             heap=ctx.pick("1g", "2g"), max_procs=ctx.pick(16, 12))
     bad = 0
     for t in traces:
         l, v = verdicts[t["id"]]
+        if v.startswith("trace:"):
+            raise Machinery("malformed trace %s.%s: %s" % (t["hdr"]["ind"], t["hdr"]["field"], v))
         if v != "ok":
             bad += 1
             h = t["hdr"]
